@@ -193,6 +193,26 @@ def check(case, ev):
         if feas is None:
             return
         nontrivial = nontrivial or nt
+    # "feasible configurations" are those of the CONFIGURATOR: what the solver may choose from (the integer points of the
+    # handed system) must be the configurations that satisfy the rules, no more (solver-safe form) and no fewer
+    lv = oracle.leaves(c)
+    if feas is not None and all(i in ids for i in lv) and all(b_ == (0, 1) for b_ in lv.values()):
+        pos = {i: ids.index(i) for i in lv}
+        leaf_parts = {tuple(x[pos[i]] for i in sorted(lv)) for x in feas}
+        if oracle.solver_safe(c):
+            for part in sorted(leaf_parts)[:300]:
+                env = dict(zip(sorted(lv), part))
+                if oracle.obj_value(c, env) != 1:
+                    raise Violation(f"the system handed to the solver admits {env}, which violates the configurator's rules (the solver would be "
+                                    f"free to return it for any priorities)")
+        if len(lv) <= 10:
+            n_sat = 0
+            for env in oracle.box_points(sorted(lv), [(0, 1)] * len(lv)):
+                if oracle.obj_value(c, env) == 1:
+                    n_sat += 1
+                    if tuple(env[i] for i in sorted(lv)) not in leaf_parts:
+                        raise Violation(f"the configuration {env} satisfies every rule but is not among the integer points of the system handed to the solver")
+            ev.count("feasible_sets_compared_with_rules")
     cl = ["kind:" + k for k in sorted({n["k"] for n in oracle.spec_nodes(spec)} - {"leaf", "ref"})]
     cl.append("feasible>=3" if len(feas) >= 3 else "feasible<3")
     if nd_ids:
